@@ -365,7 +365,9 @@ type probe struct {
 	confirm func(o outcome, dir string) (bool, string)
 }
 
-func canaryDir() string { return filepath.Join(lib.VerifRoot, ".cache", "c16", fmt.Sprintf("run-%d", os.Getpid())) }
+func canaryDir() string {
+	return filepath.Join(lib.VerifRoot, ".cache", "c16", fmt.Sprintf("run-%d", os.Getpid()))
+}
 
 func encHasToken(o outcome, _ string) (bool, string) {
 	if o.Kind == "table" && strings.Contains(o.Enc, canaryToken) {
@@ -518,7 +520,7 @@ func Run(r *lib.Report) {
 	r.Rule = "Scripts: (1) every program of the bounded Lua grammar in checks/c16/grammar.go (all syntax trees up to the node / depth / statement bounds in coverage.bounds, smallest first); " +
 		"(2) the fixed hostile corpus in corpus.go, each with both call-site input objects, plus every character string and every token sequence up to the lexical bounds; " +
 		"(3) every function reachable from _G inside the real VM (exhaustive walk through tables, metatables, function environments) and one functional probe per OS-capable name against canary files; " +
-		"(4) every JSON-like value of the bounded domain (coverage.bounds.bridge) through `return obj` and `return json.decode(json.encode(obj))`; " +
+		"(4) every JSON-like value of the bounded domain (coverage.bridge_domains, coverage.bridge_scalars) through `return obj` and `return json.decode(json.encode(obj))`; " +
 		"(5) every polluting script followed by a probe script in the same process. " +
 		"Each script runs through the real RunLuaScript -> l.Get(-1) -> Encode -> json.Unmarshal sequence of the two providers, in a worker subprocess with a 10 s watchdog. " +
 		"Non-trivial = the script ran into the VM deadline, or produced a table that went through Encode/MarshalJSON (accepted or rejected by the cycle / sparse / key checks), or a bridge value containing data came back as a table."
@@ -529,7 +531,7 @@ func Run(r *lib.Report) {
 		"Memory and nesting bombs are outside the property: a worker whose heap exceeds 768 MB while running a script ends itself and the script is counted as 'excluded: memory budget exceeded', never as a verdict. Corpus scripts are kept below 1 MiB (ConfigMap object limit) and below nesting depth 5000.",
 		"Capability surface: a reachable function outside the reviewed allow-list is a violation only when a functional probe confirms file / process / environment access (canary file read, file created / removed, environment variable read, process exit). An unreviewed reachable function that no probe confirms makes the run non-exhaustive (warning), it is not a verdict. print/_printregs (controller stdout), collectgarbage, load/loadstring (same sandbox) and require/module (inert without package loaders; probed) are on the allow-list.",
 		"Value bridge equality is modulo exactly: int/float unification (numbers compared as float64); empty table -> null (empty list/map == null, and a map entry holding null == absent entry). Values with a null element inside a list are outside the property's value domain (maps/lists/numbers/strings; Lua arrays cannot hold nil): they are executed and must not panic, but are not judged for equality; for the json-roundtrip variant the same holds for an empty container inside a list (documented loss composed with the former).",
-		"A worker crash is attributed to the script that was executing when the process died. Workers run with a 256 MB goroutine stack limit (production default 1 GB): unbounded Go recursion ends in the same fatal 'stack overflow', only sooner; Lua call depth is bounded by the VM (256 frames) and the deepest corpus nesting (5000) needs far less.",
+		"A worker crash is attributed to the script that was executing when the process died. Workers run with a 64 MB goroutine stack limit (production default 1 GB): unbounded Go recursion ends in the same fatal 'stack overflow', only sooner; Lua call depth is bounded by the VM (256 frames) and the deepest corpus nesting (5000) needs far less.",
 	}
 	r.TrustedBase = []string{"gopher-lua VM semantics are not modelled: the real VM executes every script", "Go os/exec process control for the watchdog", "the reviewed allow-list of pure library functions (c16.go allowList)"}
 
@@ -719,7 +721,7 @@ func Run(r *lib.Report) {
 	}
 	cut.mu.Unlock()
 	if len(cutInfo) > 0 {
-		r.NotExhaustive(fmt.Sprintf("classes cut after 3 watchdog kills (scripts skipped): %v", cutInfo))
+		r.NotExhaustive(fmt.Sprintf("classes cut after 3 watchdog kills or 25 worker crashes (scripts skipped): %v", cutInfo))
 	}
 	r.Extra["bounds"] = map[string]interface{}{
 		"grammar": map[string]interface{}{"atoms": g.atoms, "keys": g.keys, "while_conditions": g.whileCnd, "unary_ops": len(g.unary), "binary_ops": len(g.binary),
